@@ -357,10 +357,53 @@ func c20GenCase(g *gen, id int, rep *runReport) (c20Case, string) {
 		es = append(es, a.coq())
 	}
 	rep.count(fmt.Sprintf("a|%v|%v", c.Entries, obs), nprob > 0)
-	return c, fmt.Sprintf("{| c_id := %s; c_entries := %s; c_observed := %s; c_selected := %s |}", coqN(id), coqList(es), coqList(obs), coqList(sel))
+	return c, fmt.Sprintf("EntrySet {| c_id := %s; c_entries := %s; c_observed := %s; c_selected := %s |}", coqN(id), coqList(es), coqList(obs), coqList(sel))
 }
 
 const c20BadComment = "# pint file/disable\n"
+
+// ---------------------------------------------------------------------------------------------
+// (c) pipeline correspondence on git histories: the real git.Changes + GlobFinder + GitBranchFinder.Find (in-process) followed by
+// the real routing and the real RuleDependencyCheck.Check on every entry of the final list, vs the composed model
+// Model/GitBranch.find ; Model/Dependency.report on the same inputs.
+func c20PipeCase(id int, res *inprocResult) (string, bool) {
+	var infos []string
+	glob, cs, _, ok, _ := findCaseParts(res, func(uid int, e discovery.Entry) {
+		a := c20Abstract(e)
+		var sels []string
+		for _, s := range a.Sels {
+			var ms []string
+			for _, m := range s.Matchers {
+				ms = append(ms, "("+coqStr(m[0])+", "+m[1]+", "+coqStr(m[2])+")")
+			}
+			sels = append(sels, "{| s_name := "+coqStr(s.Name)+"; s_str := "+coqStr(s.Str)+"; s_matchers := "+coqList(ms)+" |}")
+		}
+		infos = append(infos, fmt.Sprintf("(%s, {| i_syntax_err := %s; i_selectors := %s; i_expr_line := %s |})", coqN(uid), coqBool(a.SyntaxErr), coqList(sels), coqZ(int64(a.ExprLine))))
+	})
+	if !ok {
+		return "", false
+	}
+	chk := checks.NewRuleDependencyCheck()
+	var obs []string
+	for _, e := range res.Final {
+		o := "None"
+		if c20Selected(e) {
+			ps := chk.Check(context.Background(), e, res.Final)
+			if len(ps) == 1 {
+				p := ps[0]
+				msg := ""
+				if len(p.Diagnostics) > 0 {
+					msg = p.Diagnostics[0].Message
+				}
+				o = fmt.Sprintf("(Some (%s, %s, %s, %s))", coqZ(int64(p.Lines.First)), coqZ(int64(p.Lines.Last)), coqStr(p.Details), coqStr(msg))
+			} else if len(ps) > 1 {
+				o = "(Some (0, 0, \"several problems\", \"\"))%Z"
+			}
+		}
+		obs = append(obs, fmt.Sprintf("(%s, %s, %s, %s, %s)", coqStr(e.Path.Name), coqZ(int64(e.Rule.Lines.First)), coqZ(int64(e.Rule.Lines.Last)), stateNames[e.State], o))
+	}
+	return fmt.Sprintf("Pipeline %s {| pc_glob := %s; pc_changes := %s; pc_info := %s; pc_observed := %s |}", coqN(id), glob, cs, coqList(infos), coqList(obs)), true
+}
 
 // ---------------------------------------------------------------------------------------------
 // (b) end to end
@@ -669,7 +712,9 @@ func runC20(args []string) int {
 	rep.Rule = "(a) one case = one generated entry set (real parser + PromQL selectors, random states incl. Removed, symlink copies, path/rule/syntax errors), " +
 		"real RuleDependencyCheck.Check run on every entry vs the model; non-trivial = at least one problem emitted. " +
 		"(b) one case = one scratch repository whose branch removes rules/files with cross references, `pint ci --json` rule/dependency entries vs the " +
-		"generator's reference graph; non-trivial = at least one removed rule with a dependant and no replacement. distinct = hash of the whole case"
+		"generator's reference graph; non-trivial = at least one removed rule with a dependant and no replacement. " +
+		"(c) one case = one of those repositories run in-process: real git.Changes + GlobFinder + GitBranchFinder.Find, real routing and real Check on every final entry " +
+		"vs the composed model (find ; report); non-trivial = at least one problem. distinct = hash of the whole case"
 	cwd, _ := os.Getwd()
 	cw := newCaseWriter(cwd, "Run.C20", 50)
 	cw.preamble = "Open Scope N_scope.\n"
@@ -692,6 +737,31 @@ func runC20(args []string) int {
 		cases[i] = &c20E2E{ID: 100000 + i, History: c20History(g)}
 	}
 	parallel(len(cases), 16, func(i int) { c20Build(cases[i], base) })
+	// (c) pipeline correspondence on the first --inproc histories (sequential: GlobFinder needs the working directory)
+	nin := argInt(args, "--inproc", 40)
+	for i, c := range cases {
+		if i >= nin {
+			break
+		}
+		res := runInproc(filepath.Join(base, fmt.Sprintf("r%05d", c.ID)))
+		if term, ok := c20PipeCase(200000+i, res); ok {
+			cw.add(term)
+			rep.hist("c:pipeline-cases")
+			nrem, nprob := 0, 0
+			for _, e := range res.Final {
+				if e.State == discovery.Removed {
+					nrem++
+				}
+			}
+			nprob = strings.Count(term, "(Some (")
+			rep.hist(fmt.Sprintf("c:removed-entries=%d", min(nrem, 5)))
+			rep.hist(fmt.Sprintf("c:problems=%d", min(nprob, 3)))
+			rep.count("c|"+term, nprob > 0)
+			rep.Cases[fmt.Sprint(200000+i)] = c
+		} else {
+			rep.Notes = append(rep.Notes, fmt.Sprintf("history %d: in-process Find failed: %s %s %s", c.ID, res.ChangeErr, res.GlobErr, res.FindErr))
+		}
+	}
 	odd := 0
 	for _, c := range cases {
 		for _, s := range c.History.Strata {
